@@ -59,6 +59,9 @@ PROP = [  # (subject fragment, property)
  ("must not rewrite a client that lives in a format-protected", "C11"),
  ("listed with falling abscissae must be sorted", "C01"), ("LINTERP with falling y must invert the table", "C03"),
  ("write the padding zeros of a write-mode seek in _GD_GzipSeek", "C02"),
+ ("argument (.a) of a real field read in an unsigned type", "C02"),
+ ("reserved word without a slash is a field name also before", "C08"), ("/META parent child CARRAY/SARRAY must read all", "C08"),
+ ("gd_putdata must resolve GD_HERE once", "C01"),
  ("inserting a parsed subfield must invalidate", "C15"), ("only the first RAW field of a fragment", "C18"),
  ("_GD_Flush must stop at the first error", "C05"), ("SetPrefix and SetSuffix must keep the cached affixes", "C20"),
  ("failing BZ2_bzRead must invalidate", "C02"), ("LINCOM with real scalars read as a complex type", "C01"), ("gd_add must record the sample size", "C03"),
